@@ -391,6 +391,10 @@ class ExprMixin:
     def list_concat(self, a, b):
         if isinstance(a, list) and isinstance(b, list):
             return a + b
+        if isinstance(a, list) and not a and isinstance(b, SList):
+            return b
+        if isinstance(b, list) and not b and isinstance(a, SList):
+            return a
         ety = a.ety if isinstance(a, SList) else b.ety
         a, b = self.as_slist(a, ety), self.as_slist(b, ety)
         j = z3.Int(fresh_name("cc"))
